@@ -3,6 +3,8 @@ import ThruVerif.Model.Path
 import ThruVerif.Model.Budget
 import ThruVerif.Gen.Consts
 import ThruVerif.Proofs.ProtoLM
+import ThruVerif.Proofs.FileWait
+import ThruVerif.Gen.Shapes
 /-!
 # C03 — Every transfer between healthy peers completes
 
@@ -342,3 +344,76 @@ theorem C03_budget (files req conns : Nat) :
   TV.Budget.budget_bounds files req conns
 
 end TV.C03
+
+namespace TV.FileWait
+
+/-! ### The FileBegin wake-up between data readers and the control loop (`Model/FileWait`)
+
+A chunk frame may reach the receiver before the `FileBegin` of its file was handled (they travel on different streams). For any
+number of data readers and every interleaving of their critical sections with `handleFileBegin`'s: -/
+
+/-- no schedule is longer than `4 n + 2` steps, and a schedule that cannot be extended has every reader proceeding with the
+file state: no reader waits for a wake-up that was given before it registered -/
+theorem C03_filebegin_wakeup (n : Nat) (as : List Step) (s : St) (h : run true (init n) as = some s) :
+    as.length ≤ 4 * n + 2 ∧ ((∀ a, step true s a = none) → done s) := by
+  refine ⟨?_, ?_⟩
+  · have := run_measure h
+    rw [measure_init] at this
+    omega
+  · intro hstuck
+    apply Decidable.byContradiction
+    intro hd
+    obtain ⟨a, s', h'⟩ := progress (inv_run (inv_init n) h) hd
+    rw [hstuck a] at h'
+    cases h'
+
+/-- as long as a reader has not proceeded (or FileBegin is not handled) some step is enabled, and every step lowers a measure -/
+theorem C03_filebegin_wakeup_progress (n : Nat) (as : List Step) (s : St) (h : run true (init n) as = some s) (hd : ¬ done s) :
+    ∃ a s', step true s a = some s' ∧ measure s' < measure s := by
+  obtain ⟨a, s', h'⟩ := progress (inv_run (inv_init n) h) hd
+  exact ⟨a, s', h', measure_step h'⟩
+
+/-- a blocked reader has been woken once `handleFileBegin` has signalled -/
+theorem C03_blocked_reader_woken (n : Nat) (as : List Step) (s : St) (h : run true (init n) as = some s) (i : Nat)
+    (hb : s.pcs[i]? = some .blocked) (hs : s.hpc = .signalled) : i ∈ s.closed := by
+  have hI := inv_run (inv_init n) h
+  rcases hI.chan i (Or.inr hb) with h' | h'
+  · exact absurd hb (hI.late hs i h')
+  · exact h'
+
+/-- premises satisfiable: two readers, one overtaken by FileBegin between its look-up and its registration, one parked early -/
+example : ∃ s, run true (init 2) [.lookup 0, .lookup 1, .register 1, .recheck 1, .store, .signal, .register 0, .recheck 0, .wake 1] = some s ∧
+    done s := by
+  refine ⟨_, rfl, ?_⟩
+  decide
+
+/-- the code before fix 39667d3 (no predicate after registering): the schedule look-up, store, signal, register leaves the reader
+blocked for good - replayed on the real code with the hook points `recv.file_begin.enter` and `recv.reader.before_wait` -/
+theorem C03_filebegin_wakeup_refuted_before_fix :
+    ∃ s, run false (init 1) [.lookup 0, .store, .signal, .register 0] = some s ∧ (∀ a, step false s a = none) ∧ ¬ done s := by
+  refine ⟨{ pcs := [.blocked], hpc := .signalled, waiters := [0], closed := [] }, by decide, ?_, by decide⟩
+  intro a
+  cases a with
+  | lookup i => rcases i with _ | i <;> simp [step]
+  | register i => rcases i with _ | i <;> simp [step]
+  | recheck i => rcases i with _ | i <;> simp [step]
+  | wake i => rcases i with _ | i <;> simp [step]
+  | store => simp [step]
+  | signal => simp [step]
+
+open TV.Gen.Shapes in
+set_option maxRecDepth 16384 in
+/-- the source the model's steps were transcribed from: `wait` registers its channel, then evaluates the predicate, then blocks;
+`signal` takes the channels out and closes every one of them; the reader's predicate is the look-up of the state under `stateMu`;
+`handleFileBegin` stores the state before it signals, the reader looks up before its wait -/
+theorem C03_source_filewait :
+    filewait_wait = ["ch := make(chan struct{})", "r.mu.Lock()", "r.waiters[id] = append(r.waiters[id], ch)", "r.mu.Unlock()",
+      "if ready != nil && ready() { return true }", "select { case <-ctx.Done(): return false case <-ch: return true }"] ∧
+    filewait_signal = ["r.mu.Lock()", "chans := r.waiters[id]", "delete(r.waiters, id)", "r.mu.Unlock()", "for _, ch := range chans { close(ch) }"] ∧
+    filewait_call_args = ["recvCtx, fileKey, registered"] ∧
+    filewait_ready_pred = ["func() bool {\n\tstateMu.Lock()\n\tdefer stateMu.Unlock()\n\treturn stateByKey[fileKey] != nil\n}"] ∧
+    filewait_signal_args = ["key"] ∧
+    filewait_order = ["stateByKey[key] = state", "fileReady.signal(key)", "state := stateByKey[fileKey]",
+      "verifhook.Point(\"recv.reader.before_wait\", fileKey)"] := by decide
+
+end TV.FileWait
